@@ -266,25 +266,46 @@ func hasOpcode(code []byte, want bytecode.Opcode) bool {
 	return false
 }
 
-// c16ModelVM: programs whose bytecode has no OpSetIndex (the model does not
-// have the heap effect of element stores) are run on the extracted VM model
-// and compared with the real VM: outcome class, sp, every global slot.
+// c16ModelVM runs the program on the extracted VM models and compares them
+// with the real VM: outcome class, sp, every global slot.
+//   - Vm.v (model vmrun): value semantics for arrays and maps, OpSetIndex only
+//     checks — only programs whose bytecode has no OpSetIndex;
+//   - VmHeap.v (model vmheap): arrays and maps are references into a heap,
+//     OpSetIndex stores — EVERY program, element stores and aliasing included
+//     (the model mirrors the real VM, the recorded VM/evaluator divergences
+//     such as vm-map-insert-lost included, so they do not show up here).
 func c16ModelVM(c c17Compiled, vm c16VM, in map[string]any, r *Result, vmModel *Model) {
-	if vmModel == nil || hasOpcode(c.Code, bytecode.OpSetIndex) || vm.Class == "timeout" || len(c.Code) > 20000 {
-		// (the model fetches by skipn: quadratic on very long code)
+	if vm.Class == "timeout" || len(c.Code) > 20000 {
+		// (the models fetch by skipn: quadratic on very long code)
 		return
 	}
+	store := hasOpcode(c.Code, bytecode.OpSetIndex)
+	if vmModel != nil && !store {
+		c16ModelVMOne(c, vm, in, r, vmModel, "Vm.v", "vm-model")
+	}
+	if c16VMHeapModel != nil {
+		if c16ModelVMOne(c, vm, in, r, c16VMHeapModel, "VmHeap.v", "vm-heap-model") && store {
+			r.Dist("vm-heap-model-compared:with-element-store")
+			if vm.Class == "ok" {
+				r.Dist("vm-heap-model-compared:with-element-store/ok")
+			}
+		}
+	}
+}
+
+// c16ModelVMOne: one model against the real VM; true when compared.
+func c16ModelVMOne(c c17Compiled, vm c16VM, in map[string]any, r *Result, vmModel *Model, name, tag string) bool {
 	ans, err := vmModel.Ask("(run " + astProgram(c.prog) + ")")
 	if err != nil {
-		r.Violate(Violation{Kind: "correspondence", Key: "model-crash", Detail: err.Error(), Input: in})
-		return
+		r.Violate(Violation{Kind: "correspondence", Key: "model-crash", Detail: name + ": " + err.Error(), Input: in})
+		return false
 	}
 	mx, err := ParseSX(ans)
 	if err != nil || mx.Kind != "lst" || len(mx.L) < 1 {
-		r.Violate(Violation{Kind: "correspondence", Key: "vm-model-output", Detail: ans, Input: in})
-		return
+		r.Violate(Violation{Kind: "correspondence", Key: tag + "-output", Detail: ans, Input: in})
+		return false
 	}
-	r.Dist("vm-model-compared")
+	r.Dist(tag + "-compared")
 	mclass := mx.L[0].S
 	switch mclass {
 	case "halted":
@@ -294,19 +315,19 @@ func c16ModelVM(c c17Compiled, vm c16VM, in map[string]any, r *Result, vmModel *
 	case "crashed":
 		mclass = "gopanic"
 	case "outoffuel":
-		r.Dist("vm-model-outoffuel")
-		return
+		r.Dist(tag + "-outoffuel")
+		return false
 	}
 	differ := func(what string, impl, model any) {
-		r.Violate(Violation{Kind: "correspondence", Key: "vm-model-differs", Detail: "the Vm.v model and bytecode.VM disagree on " + what,
+		r.Violate(Violation{Kind: "correspondence", Key: tag + "-differs", Detail: "the " + name + " model and bytecode.VM disagree on " + what,
 			Input: in, Impl: impl, Model: model})
 	}
 	if mclass != vm.Class {
 		differ("the outcome", vm.Class+" "+vm.Detail, ans)
-		return
+		return true
 	}
 	if mclass != "ok" {
-		return
+		return true
 	}
 	slots := make([]string, c.GCount)
 	for i := range slots {
@@ -324,4 +345,5 @@ func c16ModelVM(c c17Compiled, vm c16VM, in map[string]any, r *Result, vmModel *
 	if strings.Join(slots, "\x1e") != strings.Join(mslots, "\x1e") || mx.L[1].S != strconv.Itoa(c.LCount) {
 		differ("the final globals / sp", map[string]any{"globals": slots, "sp": c.LCount}, map[string]any{"globals": mslots, "sp": mx.L[1].S})
 	}
+	return true
 }
